@@ -186,3 +186,4 @@ contract(
     inline=['bumble.core:ProtocolError.*', 'bumble.core:BaseError.*'],
     note='S: pending_request / pending_response are in the frame (released by send_request\'s finally once the waiter is resolved)',
 )
+
